@@ -345,7 +345,7 @@ def gen_shapes(tier, seed):
           ("cls", ("dict", K2, K2)), ("cls", ("dict", K0, K2)), ("cls", ("mylist", K2)), ("cls", ("any",)),
           ("inst", 2), ("inst", -1), ("cls", ("obj",)), ("cls", ("tuple", K2)), ("cls", ("tuple", K2, K2)),
           ("cls", ("tuple", K0, K2)), ("cls", ("bare", "mylist")), ("cls", ("bare", "list")), ("cls", ("bare", "dict")),
-          ("cls", ("bare", "intkeyed")), ("cls", ("intkeyed", K2)), ("cls", ("km",)), ("cls", ("kmsub",))]
+          ("cls", ("bare", "intkeyed")), ("cls", ("intkeyed", K2)), ("cls", ("km",)), ("cls", ("kmsub",)), ("cls", ("list", ("any",))), ("cls", ("dict", K2, ("any",)))]
     P1 = [("inst", 2), ("inst", 0)]
     one2 = [dict(n=n, methods=[[a], [b]], args=[p]) for a in A0 for b in A0 for p in P0]
     one3 = [dict(n=n, methods=[[a], [b], [c]], args=[p]) for a in A0 for b in A0 for c in A0 for p in P0]
